@@ -14,7 +14,8 @@ import (
 // H_C11_contain (style P): a real one-repository shard (written by the real writer) with one
 // arbitrary byte at a symbolic position - in the table of contents / trailer (regime 0) or in the
 // body: contents, posting lists, offsets, metadata (regime 1: a stride of positions over the whole
-// file; positions inside the two JSON metadata sections are skipped) - is loaded the way the loader does. If it loads, it is searched and listed through the
+// file), or with one offset/size field of the table of contents changed by +-1/+-4 [+-2/+-8] (regime 2;
+// positions inside the two JSON metadata sections are skipped) - is loaded the way the loader does. If it loads, it is searched and listed through the
 // sharded searcher's per-shard entry points searchOneShard and listOneShard. No panic escapes
 // (loading has no recover; search and list are contained and report one crash), no loop runs past
 // its budget, no allocation is unbounded; a search that did not crash returns a result.
@@ -23,18 +24,30 @@ func H_C11_contain() {
 	data := index.VerifSimpleShardBytes(1, "r1", []string{"a.go", "b.go"}, []string{"func needle() {}\nline two\n", "plain text\n"})
 	n := len(data)
 	var pos int
-	if verifrt.Concretize(verifrt.IntRange("regime", 0, 1)) == 0 {
+	switch verifrt.Concretize(verifrt.IntRange("regime", 0, 2)) {
+	case 0:
 		pos = n - verifrt.Concretize(verifrt.IntRange("fromEnd", 1, verifrt.Param("window", 8, 48)))
-	} else {
+	case 1:
 		k := verifrt.Param("positions", 8, 96)
 		pos = verifrt.Concretize(verifrt.IntRange("slot", 0, k-1)) * (n - 48) / k
+	default:
+		// one section's offset or size in the table of contents is off by a little: the section
+		// still lies inside the file but no longer has the length the other sections imply
+		fields := index.VerifTOCFields(data)
+		pos = fields[verifrt.Concretize(verifrt.IntRange("field", 0, len(fields)-1))] + 3 // low-order byte
+		deltas := []int{-4, -1, 1, 4, -8, 8, -2, 2}
+		d := deltas[verifrt.Concretize(verifrt.IntRange("delta", 0, verifrt.Param("deltas", 3, 7)))]
+		data[pos] = byte(int(data[pos]) + d)
+		pos = -1
 	}
-	if index.VerifInJSONSection(data, pos) {
-		// corrupt JSON metadata is outside this harness (encoding/json is a token model)
-		verifrt.Reach("returned")
-		return
+	if pos >= 0 {
+		if index.VerifInJSONSection(data, pos) {
+			// corrupt JSON metadata is outside this harness (encoding/json is a token model)
+			verifrt.Reach("returned")
+			return
+		}
+		data[pos] = verifrt.U8("byte")
 	}
-	data[pos] = verifrt.U8("byte")
 	verifrt.AllocBound(1 << 20)
 	verifrt.LoopBudget(600, 3000000)
 	s, err := index.VerifSearcherFromBytes(data, "corrupt.zoekt")
